@@ -96,7 +96,10 @@ def has_negative_key(n):
     """a mapping with a negative integer key can address one list element under two spellings (-1 and len-1): with such a
     mapping the ORDER of its entries decides which value the element gets - key permutation is not meaning-preserving there"""
     if n[0] == 'map':
-        return any((isinstance(k, int) and k < 0) or has_negative_key(c) for k, c in n[2])
+        # ... and so does the remove-this-entry idiom on an integer key (a value-less !del / an emptied !del node): merged onto a list it
+        # removes the element and shifts the later ones, so the entries written after it address other elements
+        removal = any(isinstance(k, int) for k, _ in n[2]) and any(c[1] == '!del' and (c[0] == 'sc' or not c[2]) for _, c in n[2])
+        return removal or any((isinstance(k, int) and k < 0) or has_negative_key(c) for k, c in n[2])
     if n[0] == 'seq':
         return any(has_negative_key(c) for c in n[2])
     return False
